@@ -47,6 +47,8 @@ RangeKindOK(ln) ==
   \/ RangeKind(ln) \in {1, 2, 3, 4, 5, 6}
   \* forward range of construct-only sources (constructible, not assignable, from *first): constructor, assign, append
   \/ RangeKind(ln) = 7 /\ ln.op # "insert_rng"
+  \* single-pass range of construct-only sources (a mid-sequence insert collects it in a temporary container first)
+  \/ RangeKind(ln) = 8
   \* single-pass input ranges: everything except the mid-sequence insert (which buffers the range in a temporary container)
   \/ RangeKind(ln) = 0
 
@@ -473,7 +475,8 @@ AppendLoop(cfg, c, x, id, j, n, len, strong, orig) ==
   ELSE LET R  == IF x.st > 0 THEN 10 + x.st ELSE InlRegion(c)
            realloc == x.sz = x.cap
            x2 == IF realloc THEN [x EXCEPT !.sz = @ + 1, !.cap = GrowTo(cfg, x.cap, x.sz + 1), !.st = id] ELSE [x EXCEPT !.sz = @ + 1]
-           elem == <<IStream(6, j, len)>> \o AppendElement(cfg, c, x, R, id, <<1, 4, j, 0>>, -1)
+           src  == IF "srcv" \in DOMAIN cfg THEN <<3, 0, 0, cfg.srcv[j + 1]>> ELSE <<1, 4, j, 0>>     \* construct-only sources (kind 8)
+           elem == <<IStream(6, j, len)>> \o AppendElement(cfg, c, x, R, id, src, -1)
        IN (IF strong THEN <<ITry(elem, <<[t |-> "erase_to", c |-> c, from |-> orig]>>)>> ELSE elem)
           \o <<IStream(7, j, len)>>
           \o AppendLoop(cfg, c, x2, IF realloc THEN id + 1 ELSE id, j + 1, n, len, strong, orig)
@@ -729,25 +732,29 @@ Script(cfg, pre, ln, id) ==
     [] op = "shrink"         -> Shrink(cfg, c, x, R, id, N, InlRegion(c))
     [] op = "assign_n"       -> AssignCopies(cfg, c, x, R, id, a[1], 4, 100)
     [] op = "assign_rng"     -> IF a[1] = 0 THEN AssignInput(cfg, c, x, R, id, a[2])
+                                \* not assignable from *first, input overload (3613): erase_all, then append element by element
+                                ELSE IF a[1] = 8 THEN <<ISetSz(c, 0)>> \o DestroyRange(R, 0, x.sz)
+                                                      \o AppendLoop(cfgv, c, [x EXCEPT !.sz = 0], id, 0, a[2], a[2], FALSE, 0)
                                 ELSE IF Conv(a[1]) THEN AssignConv(cfgv, c, x, R, id, a[2], a[1])
                                 ELSE AssignRange(cfg, c, x, R, id, a[2], a[1])
     [] op \in {"assign_il", "opeq_il"} -> AssignRange(cfg, c, x, R, id, a[1], 4)
-    [] op = "append_rng"     -> (IF a[1] = 0 THEN AppendLoop(cfg, c, x, id, 0, a[2], a[2], TRUE, x.sz)
+    [] op = "append_rng"     -> (IF a[1] \in {0, 8} THEN AppendLoop(IF a[1] = 8 THEN cfgv ELSE cfg, c, x, id, 0, a[2], a[2], TRUE, x.sz)
                                  ELSE AppendRange(cfgv, c, x, R, id, a[2], StrongKind(cfg), a[1])) \o <<IRet(-1)>>      \* append returns *this
     [] op = "append_il"      -> AppendRange(cfg, c, x, R, id, a[1], StrongKind(cfg), 4) \o <<IRet(-1)>>
-    [] op = "insert_rng" /\ a[2] = 0 ->
+    [] op = "insert_rng" /\ a[2] \in {0, 8} ->
+         LET cf == IF a[2] = 8 THEN cfgv ELSE cfg IN
          IF a[3] = 0 THEN <<IRet(a[1])>>
-         ELSE IF a[1] = x.sz THEN AppendLoop(cfg, c, x, id, 0, a[3], a[3], FALSE, 0) \o <<IRet(a[1])>>      \* append_range, plain policy
-         ELSE InsertInputMid(cfg, c, x, R, id, a[1], a[3], N)
+         ELSE IF a[1] = x.sz THEN AppendLoop(cf, c, x, id, 0, a[3], a[3], FALSE, 0) \o <<IRet(a[1])>>      \* append_range, plain policy
+         ELSE InsertInputMid(cf, c, x, R, id, a[1], a[3], N)
     [] op = "insert_rng"     -> InsertRange(cfg, c, x, R, id, a[1], a[3], a[2])
     [] op = "insert_il"      -> InsertRange(cfg, c, x, R, id, a[1], a[2], 4)
-    [] op = "ctor_rng" /\ a[2] = 0 ->
+    [] op = "ctor_rng" /\ a[2] \in {0, 8} ->
          \* input-range constructor (3455): delegate to the allocator constructor, then append element by element;
          \* a failure runs the destructor of the (completely constructed) base
          LET al == IF cfg.isStd THEN 0 ELSE IF a[1] = 0 THEN 1 ELSE a[1]
              x0 == [p |-> TRUE, cap |-> N, sz |-> 0, st |-> 0, al |-> al]
          IN <<ISetP(c, TRUE, al), ISetHd(c, N, 0), ISetSz(c, 0),
-              ITry(AppendLoop(cfg, c, x0, id, 0, a[3], a[3], FALSE, 0), <<[t |-> "wipe", c |-> c], ISetP(c, FALSE, 0)>>), IRet(-1)>>
+              ITry(AppendLoop(IF a[2] = 8 THEN cfgv ELSE cfg, c, x0, id, 0, a[3], a[3], FALSE, 0), <<[t |-> "wipe", c |-> c], ISetP(c, FALSE, 0)>>), IRet(-1)>>
     [] op \in {"ctor_rng", "ctor_il"} ->
          \* forward-range constructor (3483): exact allocation, checked against max_size()
          LET al == IF cfg.isStd THEN 0 ELSE IF a[1] = 0 THEN 1 ELSE a[1]
@@ -834,7 +841,7 @@ Exec(cfg, pre, ln) ==
       out |-> IF r.exc = "" THEN "ok" ELSE r.exc,
       ret |-> IF r.exc # "" THEN -1 ELSE IF ln.op = "cmp" THEN ln.ret ELSE s.ret,
       \* ret2: how far a single-pass range was consumed (also on failure) / how often the generator was called (on success)
-      ret2 |-> IF ln.op \in {"ctor_rng", "assign_rng", "append_rng", "insert_rng"} /\ RangeKind(ln) = 0
+      ret2 |-> IF ln.op \in {"ctor_rng", "assign_rng", "append_rng", "insert_rng"} /\ RangeKind(ln) \in {0, 8}
                  THEN Cardinality({j \in 1..Len(s.evs) : s.evs[j][1] = 7})
                ELSE IF ln.op = "ctor_gen" /\ r.exc = "" THEN ln.a[2] ELSE -1,
       evs |-> s.evs, evtrunc |-> FALSE,
